@@ -9,9 +9,16 @@ The full statement — distinct map keys give distinct reported paths — is FAL
 code: `rewrite_paths` maps every key on its own and collects the results without merging records
 whose rewritten paths coincide (finding C12-respelled-duplicates). It is proved false from the
 closed witness of DESIGN §7 item 14 (five spellings of `foo/bar.c`), which harness/c12 replays on
-the real code; what is provable carries the guard the witness violates.
+the real code; what is provable carries the guard the witness violates. Without a source dir and
+a path mapping the guard is SHARP (`C12_unique_iff_no_source`, `C12_unique_iff_unfiltered`):
+duplicates appear exactly when two reported keys share a lexical name. A second source of
+duplicates — two clean keys that differ by the prefix dir — has its own closed witness
+(`C12_prefix_collapse_witness`, finding C12-prefix-collapses-distinct-keys) and guard.
+Under the canonical guard the single record is the C01 merge of all spellings
+(`C12_canonical_record_is_merge`), and the totals statement is instantiated with the covdir writer.
 -/
-import GrcovModel.Lemmas.Rewrite
+import GrcovModel.Lemmas.RewriteUnique
+import GrcovModel.Lemmas.Stats
 namespace Grcov.Props.C12
 open Grcov Grcov.UPath Grcov.Glob Grcov.Rewrite AList
 
@@ -67,6 +74,165 @@ theorem C12_unique_partial_normal_keys (cfg : Cfg) (fs : FS) (m : List (Bytes ×
   rw [hrel kc hkc r hf]
   exact List.mem_map.2 ⟨kc, hkc, rfl⟩
 
+/-! ### the sharp guard (no source dir, no path mapping)
+
+Without a source dir and a mapping the name a key is reported under is a function of the key alone:
+the lexical normal form of the key with its backslashes turned into '/' and the prefix dir removed
+(`lexName`). The report then has pairwise distinct paths EXACTLY when that function is injective
+on the keys that are reported — which is also the exact extent of finding
+C12-respelled-duplicates in this regime: duplicates appear exactly when two reported keys share a
+lexical name. -/
+
+/-- the name a key is reported under when neither a source dir nor a path mapping is given -/
+def lexName (cfg : Cfg) (k : Bytes) : Option Bytes :=
+  normalizePath (removePrefix cfg.prefixDir (bsl k))
+
+/-- Every reported record carries its key's lexical name (any prefix dir, any filters). -/
+theorem C12_reported_under_lexName (cfg : Cfg) (fs : FS) (hS : cfg.sourceDir = none)
+    (hM : cfg.mapping = none) (kc : Bytes × Cov) (r : Rec)
+    (h : rewriteKey cfg fs kc = .ok (some r)) : lexName cfg kc.1 = some r.rel := by
+  unfold lexName; rw [← keyPath_noMapping hM]; exact rel_eq_nf hS hM h
+
+/-- **Sharp guard.** No source dir, no mapping (any prefix dir, any filters, any file system): the
+report has no two records with the same path iff `lexName` is injective on the keys that are
+reported. -/
+theorem C12_unique_iff_no_source (cfg : Cfg) (fs : FS) (m : List (Bytes × Cov)) (rep : List Rec)
+    (hS : cfg.sourceDir = none) (hM : cfg.mapping = none) (hm : NodupKeys m)
+    (h : rewritePaths cfg fs m = .ok rep) :
+    (rep.map (·.rel)).Nodup ↔
+      ∀ kc1 ∈ m, ∀ kc2 ∈ m, (∃ r, rewriteKey cfg fs kc1 = .ok (some r)) →
+        (∃ r, rewriteKey cfg fs kc2 = .ok (some r)) →
+        lexName cfg kc1.1 = lexName cfg kc2.1 → kc1.1 = kc2.1 := by
+  obtain ⟨_, _, e⟩ := (rewritePaths_eq_ok _ _ _ _).1 h
+  subst e
+  have hrel : ∀ kc ∈ m, ∀ r, keyRec cfg fs kc = some r → r.rel = (lexName cfg kc.1).getD [] := by
+    intro kc _ r hr
+    rw [C12_reported_under_lexName cfg fs hS hM kc r ((keyRec_eq_some _ _ _ _).1 hr)]; rfl
+  rw [nodup_rel_iff (keyRec cfg fs) (fun k => (lexName cfg k).getD []) m hm hrel]
+  constructor
+  · intro H kc1 h1 kc2 h2 ⟨r1, e1⟩ ⟨r2, e2⟩ hl
+    exact H kc1 h1 kc2 h2 (by simp [(keyRec_eq_some _ _ _ _).2 e1]) (by simp [(keyRec_eq_some _ _ _ _).2 e2])
+      (by show (lexName cfg kc1.1).getD [] = (lexName cfg kc2.1).getD []; rw [hl])
+  · intro H kc1 h1 kc2 h2 s1 s2 hG
+    obtain ⟨r1, e1⟩ := Option.isSome_iff_exists.1 s1
+    obtain ⟨r2, e2⟩ := Option.isSome_iff_exists.1 s2
+    have k1 := (keyRec_eq_some _ _ _ _).1 e1
+    have k2 := (keyRec_eq_some _ _ _ _).1 e2
+    refine H kc1 h1 kc2 h2 ⟨r1, k1⟩ ⟨r2, k2⟩ ?_
+    have l1 := C12_reported_under_lexName cfg fs hS hM kc1 r1 k1
+    have l2 := C12_reported_under_lexName cfg fs hS hM kc2 r2 k2
+    simp only [l1, l2, Option.getD_some] at hG
+    rw [l1, l2, hG]
+
+/-- With the filters off (and a clean current directory) a key is reported iff it has a lexical
+name, so the criterion speaks about the keys alone: the report has pairwise distinct paths iff no
+two distinct keys share a lexical name. E.g. `./a.c` with `b.c` is fine; `./a.c` with `a.c`, or
+`foo\bar.c` with `foo/bar.c`, or (prefix `p`) `p/a.c` with `a.c`, is not. -/
+theorem C12_unique_iff_unfiltered (cfg : Cfg) (fs : FS) (m : List (Bytes × Cov)) (rep : List Rec)
+    (hS : cfg.sourceDir = none) (hM : cfg.mapping = none) (hI : cfg.ignore = []) (hK : cfg.keep = [])
+    (hE : cfg.ignoreNotExisting = false) (hF : cfg.filter = none) (hcwd : ∀ n ∈ fs.cwd, RealName n)
+    (hm : NodupKeys m) (h : rewritePaths cfg fs m = .ok rep) :
+    (rep.map (·.rel)).Nodup ↔
+      ∀ k1 ∈ keys m, ∀ k2 ∈ keys m, lexName cfg k1 ≠ none → lexName cfg k1 = lexName cfg k2 → k1 = k2 := by
+  have hrep : ∀ kc : Bytes × Cov, (∃ r, rewriteKey cfg fs kc = .ok (some r)) ↔ lexName cfg kc.1 ≠ none := by
+    intro kc
+    constructor
+    · rintro ⟨r, hr⟩; rw [C12_reported_under_lexName cfg fs hS hM kc r hr]; simp
+    · intro hne
+      obtain ⟨n, hn⟩ := Option.ne_none_iff_exists'.1 hne
+      unfold lexName at hn
+      rw [← keyPath_noMapping hM] at hn
+      obtain ⟨a, ha⟩ := resolveKey_noSource hS hM hcwd hn
+      refine ⟨⟨a, n, kc.2⟩, ?_⟩
+      rw [rewriteKey_some_iff]
+      refine ⟨a, n, ha, ?_⟩
+      rw [selectRec_some_iff]
+      simp [hI, hK, hE, hF, setMatch, filterOk]
+  rw [C12_unique_iff_no_source cfg fs m rep hS hM hm h]
+  constructor
+  · intro H k1 h1 k2 h2 hne hl
+    obtain ⟨kc1, m1, rfl⟩ := List.mem_map.1 h1
+    obtain ⟨kc2, m2, rfl⟩ := List.mem_map.1 h2
+    exact H kc1 m1 kc2 m2 ((hrep kc1).2 hne) ((hrep kc2).2 (hl ▸ hne)) hl
+  · intro H kc1 m1 kc2 m2 r1 _ hl
+    exact H kc1.1 (List.mem_map.2 ⟨kc1, m1, rfl⟩) kc2.1 (List.mem_map.2 ⟨kc2, m2, rfl⟩) ((hrep kc1).1 r1) hl
+
+/-! ### a second source of duplicates: the prefix dir -/
+
+/-- Statement with guard 1 but a prefix dir allowed: keys already in normal form, no source dir, no
+mapping ⇒ pairwise distinct paths. FALSE (finding C12-prefix-collapses-distinct-keys). -/
+def C12_unique_normal_keys_stmt : Prop :=
+  ∀ (cfg : Cfg) (fs : FS) (m : List (Bytes × Cov)) (rep : List Rec),
+    cfg.sourceDir = none → cfg.mapping = none → NodupKeys m →
+    (∀ kc ∈ m, ∃ np : NPath, kc.1 = render np ∧ ∀ n ∈ np.names, RealName n ∧ 92 ∉ n) →
+    rewritePaths cfg fs m = .ok rep → (rep.map (·.rel)).Nodup
+
+/-- Witness: `--prefix-dir p`, keys `p/a.c` and `a.c` — two different clean keys, neither a
+respelling of the other — are both reported as `a.c`, each with its own counts. -/
+theorem C12_prefix_collapse_witness :
+    rewritePaths { prefixDir := some [112] } ⟨[], [], []⟩
+        [([112, 47, 97, 46, 99], { lines := [(1, 1)] }), ([97, 46, 99], { lines := [(1, 2)] })]
+      = .ok [⟨[97, 46, 99], [97, 46, 99], { lines := [(1, 1)] }⟩,
+             ⟨[97, 46, 99], [97, 46, 99], { lines := [(1, 2)] }⟩] := by decide
+
+theorem C12_unique_normal_keys_false : ¬ C12_unique_normal_keys_stmt := by
+  intro h
+  have := h { prefixDir := some [112] } ⟨[], [], []⟩ _ _ rfl rfl (by unfold NodupKeys keys; decide)
+    (by
+      intro kc hkc
+      simp only [List.mem_cons, List.not_mem_nil, or_false] at hkc
+      rcases hkc with rfl | rfl
+      · exact ⟨⟨false, [[112], [97, 46, 99]]⟩, by decide, by decide⟩
+      · exact ⟨⟨false, [[97, 46, 99]]⟩, by decide, by decide⟩)
+    C12_prefix_collapse_witness
+  revert this
+  decide
+
+/-- Under the guard the witness violates — EVERY key lies below the (clean, absolute) prefix dir,
+in normal form and without backslash — stripping the common prefix is injective and the reported
+paths are pairwise distinct. (The other way to satisfy the sharp criterion, no key below the
+prefix, is guard 1.) -/
+theorem C12_unique_partial_below_prefix (cfg : Cfg) (fs : FS) (m : List (Bytes × Cov)) (rep : List Rec)
+    (pn : List Bytes) (hS : cfg.sourceDir = none) (hM : cfg.mapping = none)
+    (hP : cfg.prefixDir = some (render ⟨true, pn⟩)) (hpn : ∀ n ∈ pn, RealName n ∧ 92 ∉ n)
+    (hm : NodupKeys m)
+    (hkeys : ∀ kc ∈ m, ∃ names, kc.1 = render ⟨true, pn ++ names⟩ ∧ ∀ n ∈ names, RealName n ∧ 92 ∉ n)
+    (h : rewritePaths cfg fs m = .ok rep) : (rep.map (·.rel)).Nodup := by
+  rw [C12_unique_iff_no_source cfg fs m rep hS hM hm h]
+  have hname : ∀ names, (∀ n ∈ names, RealName n ∧ 92 ∉ n) →
+      lexName cfg (render ⟨true, pn ++ names⟩) = some (join names) := by
+    intro names hn
+    have hall : ∀ n ∈ pn ++ names, 92 ∉ n := by
+      intro n hmem
+      rcases List.mem_append.1 hmem with hmem | hmem
+      · exact (hpn n hmem).2
+      · exact (hn n hmem).2
+    unfold lexName
+    rw [bsl_id (noBackslash_render (np := ⟨true, pn ++ names⟩) hall), hP]
+    simp only [removePrefix, stripPrefix_render (fun n h => (hpn n h).1) (fun n h => (hn n h).1)]
+    rw [join_eq_render, normalizePath_render (np := ⟨false, names⟩) fun n h => (hn n h).1]
+  intro kc1 h1 kc2 h2 _ _ hl
+  obtain ⟨n1, e1, hn1⟩ := hkeys kc1 h1
+  obtain ⟨n2, e2, hn2⟩ := hkeys kc2 h2
+  rw [e1, e2, hname n1 hn1, hname n2 hn2] at hl
+  have := join_injective (fun n h => (hn1 n h).1) (fun n h => (hn2 n h).1) (Option.some.inj hl)
+  rw [e1, e2, this]
+
+/-- the criterion on concrete maps: `./a.c` with `b.c` satisfies it (guard 1 does not: `./a.c` is
+not in normal form); `./a.c` with `a.c` does not -/
+example : ∀ k1 ∈ keys [([46, 47, 97, 46, 99], ({} : Cov)), ([98, 46, 99], {})],
+    ∀ k2 ∈ keys [([46, 47, 97, 46, 99], ({} : Cov)), ([98, 46, 99], {})],
+    lexName {} k1 ≠ none → lexName {} k1 = lexName {} k2 → k1 = k2 := by decide
+
+example : lexName {} [46, 47, 97, 46, 99] = lexName {} [97, 46, 99] ∧
+    lexName { prefixDir := some [112] } [112, 47, 97, 46, 99] = lexName { prefixDir := some [112] } [97, 46, 99] := by
+  decide
+
+/-- all keys below the prefix `/p`: `/p/a.c`, `/p/x/b.c` are reported as `a.c`, `x/b.c` -/
+example : ∃ rep, rewritePaths { prefixDir := some [47, 112] } ⟨[], [], []⟩
+      [([47, 112, 47, 97, 46, 99], {}), ([47, 112, 47, 120, 47, 98, 46, 99], {})] = .ok rep ∧
+    rep.map (·.rel) = [[97, 46, 99], [120, 47, 98, 46, 99]] := ⟨_, rfl, by decide⟩
+
 /-- Guard 2 — what `main` does for files that exist below the source dir: `add_results`
 canonicalises `source_dir/key` before keying the map, so every spelling of an existing file lands
 on one entry (aggregated according to C01); with a clean source dir `S`, no mapping, and the
@@ -84,6 +250,45 @@ theorem C12_unique_partial_canonical (cfg : Cfg) (fs : FS) (sn : List Bytes)
     (h : addThenRewrite cfg fs batch = .ok rep) : (rep.map (·.rel)).Nodup :=
   unique_canonical cfg fs sn batch rep hS hM hP hsn hex h
 
+/-- … and that single record IS the aggregate of all the spellings (C01): under the same guard,
+every reported record is named `names` for a file `S/names`, and its data is the left fold of
+`merge` (`foldInto none`) over exactly the batch entries whose key canonicalises to `S/names`, in
+batch order — `merge` being the operation C01 proves commutative, associative and saturating. -/
+theorem C12_canonical_record_is_merge (cfg : Cfg) (fs : FS) (sn : List Bytes)
+    (batch : List (Bytes × Cov)) (rep : List Rec)
+    (hS : cfg.sourceDir = some (render ⟨true, sn⟩)) (hM : cfg.mapping = none)
+    (hP : cfg.prefixDir = none ∨ cfg.prefixDir = some (render ⟨true, sn⟩))
+    (hsn : ∀ n ∈ sn, RealName n ∧ 92 ∉ n)
+    (hex : ∀ kc ∈ batch, ∃ names, names ≠ [] ∧ (∀ n ∈ names, RealName n ∧ 92 ∉ n) ∧
+      fs.realpath (push (render ⟨true, sn⟩) kc.1) = some (render ⟨true, sn ++ names⟩) ∧
+      fs.resolve (render ⟨true, sn ++ names⟩) = some (sn ++ names, .file))
+    (h : addThenRewrite cfg fs batch = .ok rep) :
+    ∀ r ∈ rep, ∃ names, names ≠ [] ∧ (∀ n ∈ names, RealName n ∧ 92 ∉ n) ∧ r.rel = join names ∧
+      some r.cov = foldInto none
+        ((batch.filter fun kc => addCanon fs cfg.sourceDir kc.1 = render ⟨true, sn ++ names⟩).map (·.2)) := by
+  intro r hr
+  unfold addThenRewrite at h
+  obtain ⟨kc, hkc, hk⟩ := (mem_rewritePaths h r).1 hr
+  have hm : NodupKeys (addResults (addCanon fs cfg.sourceDir) [] batch) :=
+    nodupKeys_addResults _ _ _ (by simp [NodupKeys, keys])
+  have hk1 : kc.1 ∈ keys (addResults (addCanon fs cfg.sourceDir) [] batch) := List.mem_map.2 ⟨kc, hkc, rfl⟩
+  rcases keys_addResults_subset _ _ _ kc.1 hk1 with h0 | ⟨kc0, hkc0, ek⟩
+  · simp [keys] at h0
+  · obtain ⟨names, hne, hn, hreal, hres⟩ := hex kc0 hkc0
+    have ekey : kc.1 = render ⟨true, sn ++ names⟩ := by rw [← ek]; simp [addCanon, hS, hreal]
+    refine ⟨names, hne, hn, ?_, ?_⟩
+    · have : kc = (render ⟨true, sn ++ names⟩, kc.2) := by rw [← ekey]
+      rw [this] at hk
+      exact rewriteKey_canonical_key hS hM hP hsn hn hne hres hk
+    · have hcov : r.cov = kc.2 := by
+        obtain ⟨a, rl, _, hsel⟩ := (rewriteKey_some_iff _ _ _ _).1 hk
+        obtain ⟨_, _, _, _, e⟩ := (selectRec_some_iff _ _ _ _ _ _).1 hsel
+        rw [e]
+      have hget : get? (addResults (addCanon fs cfg.sourceDir) [] batch) kc.1 = some kc.2 :=
+        get?_of_mem hm (by cases kc; exact hkc)
+      rw [get?_addResults, ekey] at hget
+      rw [hcov, ← hget]; rfl
+
 /-- `add_results` keeps one entry per canonicalised key, whatever the spellings in the batches. -/
 theorem C12_add_results_one_entry_per_path (canon : Key → Key) (batch : List (Key × Cov)) :
     NodupKeys (addResults canon [] batch) ∧
@@ -99,6 +304,44 @@ total adds up (one summand per record below it) equals the sum over the files li
 theorem C12_totals_count_once (rep : List Rec) (inDir : Bytes → Bool)
     (h : (rep.map (·.rel)).Nodup) : dirTotal inDir rep = listedTotal inDir rep := by
   unfold listedTotal; rw [shown_of_nodup rep h]
+
+/-- pairwise distinct paths are what a tree-shaped writer needs to show every record: nothing is
+replaced by a later record of the same name -/
+theorem C12_shown_all_of_unique (rep : List Rec) (h : (rep.map (·.rel)).Nodup) : shown rep = rep :=
+  shown_of_nodup rep h
+
+/-- The same, instantiated with the covdir writer (`Stats.covdir`, model of `output_covdir`, tied to
+the code by C13/C03): whatever way the records are turned into the writer's input (any `FileIn`
+list carrying the records' data in order), the ROOT `linesTotal` of the covdir report is the sum
+over all records; so when the reported paths are pairwise distinct it equals the sum over the
+files the report lists, each once. -/
+theorem C12_covdir_root_counts_each_file_once (rep : List Rec) (rs : List Stats.FileIn)
+    (t : Stats.CDRoot) (hcov : rs.map (·.cov) = rep.map (·.cov)) (h : Stats.covdir rs = .ok t) :
+    t.stats.total = dirTotal (fun _ => true) rep ∧
+      ((rep.map (·.rel)).Nodup → t.stats.total = listedTotal (fun _ => true) rep) := by
+  have hroot : t.stats.total = dirTotal (fun _ => true) rep := by
+    obtain ⟨rfl, h0⟩ := Stats.covdir_ok h
+    rw [Stats.covdirTree_root rs h0]
+    have hsum : ∀ xs : List Stats.CDStats, (Stats.sumCD xs).total = (xs.map (·.total)).sum := by
+      intro xs
+      induction xs with
+      | nil => rfl
+      | cons x xs ih => simp [Stats.CDStats.add, ih]
+    rw [hsum, List.map_map]
+    have hfile : ∀ r ∈ rs, ((fun x : Stats.CDStats => x.total) ∘ fun r : Stats.FileIn => r.cdFile.stats) r
+        = r.cov.lines.length := by
+      intro r hr
+      simp only [Function.comp]
+      unfold Stats.FileIn.cdFile
+      rw [Stats.cdFileNew_stats _ _ (h0 r hr)]
+    rw [List.map_congr_left hfile]
+    have hall : rep.filter (fun _ => true) = rep := List.filter_eq_self.2 (by simp)
+    unfold dirTotal
+    rw [hall]
+    have : (rs.map fun r => r.cov.lines.length) = (rs.map (·.cov)).map fun c => c.lines.length := by
+      rw [List.map_map]; rfl
+    rw [this, hcov, List.map_map]; rfl
+  exact ⟨hroot, fun hnd => by rw [hroot]; exact C12_totals_count_once rep _ hnd⟩
 
 /-- Without it they do not: on the witness report the root total is 5 lines for the single listed
 file with 1 line. -/
@@ -132,5 +375,17 @@ example : exFS.realpath (push (render ⟨true, [[115]]⟩) [102, 111, 111, 47, 4
       = some (render ⟨true, [[115]] ++ [[102, 111, 111], [98, 97, 114, 46, 99]]⟩) ∧
     exFS.resolve (render ⟨true, [[115]] ++ [[102, 111, 111], [98, 97, 114, 46, 99]]⟩)
       = some ([[115]] ++ [[102, 111, 111], [98, 97, 114, 46, 99]], .file) := by decide
+
+/-- the covdir instance on a concrete report with two distinct paths: the hypotheses hold and the
+root total is 1 + 2 = 3, the sum over the two listed files -/
+example :
+    let rep : List Rec := [⟨[47, 115, 47, 97, 46, 99], [97, 46, 99], { lines := [(1, 1)] }⟩,
+                           ⟨[47, 115, 47, 98, 46, 99], [98, 46, 99], { lines := [(1, 0), (2, 5)] }⟩]
+    let rs : List Stats.FileIn :=
+      [{ relIsRel := true, openable := true, rel := [[97, 46, 99]], abs := [], cov := { lines := [(1, 1)] } },
+       { relIsRel := true, openable := true, rel := [[98, 46, 99]], abs := [], cov := { lines := [(1, 0), (2, 5)] } }]
+    rs.map (·.cov) = rep.map (·.cov) ∧ (rep.map (·.rel)).Nodup ∧
+      (∃ t, Stats.covdir rs = .ok t ∧ t.stats.total = 3) ∧ listedTotal (fun _ => true) rep = 3 := by
+  refine ⟨rfl, by decide, ⟨_, rfl, by decide⟩, by decide⟩
 
 end Grcov.Props.C12
